@@ -12,11 +12,11 @@ EPS = 1e-10
 # ----------------------------------------------------------------------------------------------- static helpers
 def wskill(M, w, ti):
     """Static work-amount skill of worker w for task ti (0 when the entry is missing)."""
-    return M.workers[w].workamount_skill_mean_map.get("t%d" % ti, 0)
+    return M.workers[w].workamount_skill_mean_map.get("T%d" % ti, 0)
 
 
 def fskill(M, f, ti):
-    return M.facs[f].workamount_skill_mean_map.get("t%d" % ti, 0)
+    return M.facs[f].workamount_skill_mean_map.get("T%d" % ti, 0)
 
 
 def w_absent(M, w, t):
@@ -52,7 +52,7 @@ def fixed_f_ok(M, f, ti):
 
 
 def can_operate(M, w, f):
-    return M.workers[w].facility_skill_map.get("f%d" % f, 0) > EPS
+    return M.workers[w].facility_skill_map.get("F%d" % f, 0) > EPS
 
 
 def eligible_worker(M, w, ti):
@@ -104,13 +104,14 @@ def contribution(M, st, i):
     total = 0
     if ts.get("nf"):
         ws, fs = A["talloc_w"][i], A["talloc_f"][i]
+        # absence is taken from the model's absence lists, not from the implementation's state flags
         for w, f in zip(ws, fs):
-            cw = 0 if (A["wstate"][w] == W_ABSENCE or not wskill(M, w, i) > EPS) else wskill(M, w, i)
-            cf = 0 if (A["fstate"][f] == W_ABSENCE or not fskill(M, f, i) > EPS) else fskill(M, f, i)
+            cw = 0 if (w_absent(M, w, t) or not wskill(M, w, i) > EPS) else wskill(M, w, i)
+            cf = 0 if (f_absent(M, f, t) or not fskill(M, f, i) > EPS) else fskill(M, f, i)
             total = total + cw * cf
     else:
         for w in A["talloc_w"][i]:
-            if A["wstate"][w] == W_ABSENCE or not wskill(M, w, i) > EPS:
+            if w_absent(M, w, t) or not wskill(M, w, i) > EPS:
                 continue
             total = total + wskill(M, w, i)
     return total
@@ -152,7 +153,7 @@ def c02(M, ctx):
                     ctx.fail("C02:wrong-progress")
                 if len(A["talloc_w"][i]) >= 2:
                     ctx.cover("multi-worker")
-                if any(A["wstate"][w] == W_ABSENCE for w in A["talloc_w"][i]) and st["working"]:
+                if any(w_absent(M, w, st["t"]) for w in A["talloc_w"][i]) and st["working"]:
                     ctx.cover("absent-worker-on-working-task")
             elif P["rem"][i] != A["rem"][i]:
                 ctx.fail("C02:non-working-task-progressed")
@@ -620,7 +621,8 @@ def c05(M, ctx, check_liveness=True):
     prj = M.project
     mt = M.run["max_time"]
     if M.exc is not None:
-        ctx.fail("C05:simulate-raised:%s" % ctx.aborted)
+        nested = any(cs.get("children") for cs in M.spec.get("comps", []))
+        ctx.fail("C05:simulate-raised:%s%s" % ("nested-product:" if nested else "", ctx.aborted))
         return
     status = int(prj.status)
     allfin = all(int(t.state) == FINISHED for t in M.tasks)
